@@ -12,6 +12,7 @@ import (
 
 func main() {
 	run := hx.ParseFlags("C02", "Check.C02")
+	meshgen.ValueOracle = false // values are C03's business; C02 judges shape only
 	for _, in := range run.Inputs() {
 		meshgen.Replay(run, in.Kind, in.Raw)
 	}
@@ -22,8 +23,14 @@ func main() {
 	r := hx.NewRng(run.Seed)
 	meshgen.FixedCases(run)
 	// one third generator cases, two thirds operation histories
-	meshgen.Generators(run, r.Fork(), run.N/3, run.Tier == "thorough")
+	ngen := run.N / 3
+	if run.Tier != "thorough" && ngen > 260 {
+		ngen = 260 // marching is costly; the quick tier spends the rest on operation histories
+	}
+	meshgen.Generators(run, r.Fork(), ngen, run.Tier == "thorough")
 	kinds := append(append([]string{}, meshgen.ExactOps...), meshgen.FrameOps...)
+	// the index-remapping operations get twice the weight of the others
+	kinds = append(kinds, "append", "weld", "split", "filter", "remove_unref", "remove_null", "crop", "repeat", "unweld")
 	for len(run.Cases) < run.N {
 		if r.Chance(1, 10) {
 			meshgen.Law(run, r)
